@@ -27,6 +27,7 @@ const (
 	sigBatchDR   = "memory-batch-deleterange-materialised-at-call-time"
 	sigSnapHas   = "pebble-snapshot-has-missing-key-returns-error"
 	sigBufNil    = "bufferbatch-put-nil-value-acts-as-delete"
+	sigSnapLeak  = "pebble-snapshot-get-callback-error-leaks-value"
 )
 
 type Cfg struct{ NilUb, LowerBound, PrevFix, NextClamp bool }
@@ -149,6 +150,9 @@ type causes struct {
 	iterBounds map[int]string
 	iterPos    map[int]string
 	nIters     int
+	// a Pebble snapshot.Get whose callback failed on a present key: the wrapper returns without
+	// closing the value, and the store's Close then reports the leak
+	snapGetFailed bool
 }
 
 func newCauses(cfg Cfg, bufDefect bool) *causes {
@@ -384,6 +388,8 @@ func (rn *Runner) Run(ops []Op) (*SeqResult, error) {
 			}
 			sig := ""
 			switch {
+			case bi != 0 && o.K == "close" && cs.snapGetFailed && spec == "ok" && out == "err:other":
+				sig = sigSnapLeak
 			case bi == 0:
 				sig = memCause
 			case o.K == "has" && strings.HasPrefix(o.Src, "s") && spec == "false" && out == "err:pebble-notfound":
@@ -403,6 +409,9 @@ func (rn *Runner) Run(ops []Op) (*SeqResult, error) {
 			default:
 				b.stopped = true
 			}
+		}
+		if o.K == "get" && o.Fail && strings.HasPrefix(o.Src, "s") && spec == "err:cb" {
+			cs.snapGetFailed = true
 		}
 		cs.after(o)
 	}
@@ -582,6 +591,10 @@ func corpus() [][]Op {
 			Op{K: "update", Idx: true, Inner: []Op{{K: "delrange", Key: nil, End: k(0xff, 0xff, 0xff)}}}, Op{K: "scan", Src: "db"},
 			Op{K: "newbatch"}, Op{K: "bput", Key: nil, Val: nil}, Op{K: "bsize"}, Op{K: "bwrite"}, Op{K: "has", Src: "db", Key: nil},
 			Op{K: "newbatch", Idx: true}, Op{K: "bdel", H: 1, Key: nil}, Op{K: "bsize", H: 1}, Op{K: "bwrite", H: 1}, Op{K: "has", Src: "db", Key: nil}),
+		// a failing Get callback on a snapshot, a batch and the store, then Close: nothing may stay pinned
+		with(Op{K: "snap"}, Op{K: "get", Src: "s0", Key: k(0x02), Fail: true}, Op{K: "sclose"},
+			Op{K: "newbatch", Idx: true}, Op{K: "get", Src: "b0", Key: k(0x02), Fail: true}, Op{K: "bclose"},
+			Op{K: "get", Src: "db", Key: k(0x02), Fail: true}, Op{K: "close"}),
 		with(Op{K: "newbatch", Idx: true}, Op{K: "close"}, Op{K: "get", Src: "db", Key: k(0)}, Op{K: "put", Key: k(0), Val: k(0)},
 			Op{K: "bput", Key: k(1), Val: k(1)}, Op{K: "bwrite"}, Op{K: "update", Idx: true, Inner: []Op{{K: "put", Key: k(1), Val: k(1)}}},
 			Op{K: "snap"}, Op{K: "close"}),
